@@ -111,6 +111,8 @@ func newPathStats() *PathStats {
 }
 
 type Interp struct {
+	pooledQueries int // solver queries answered by this interpreter's solver in earlier kernels
+
 	prog    *ssa.Program
 	ts      *TermStore
 	solver  *Solver
